@@ -278,18 +278,22 @@ func executeEnv(c *an.Ctx, rule1, rule2 string) {
 		c.Und(rule1, "executor.(*DefaultExecutor).Execute", token.NoPos, "Execute not found")
 		return
 	}
-	sites := an.CallsIn(ex, "mvdan.cc/sh/v3/expand.ListEnviron")
+	var sites []ssa.CallInstruction
+	for fn := range p.Reach([]*ssa.Function{ex}, func(e an.CallEdge) bool { return an.Outer(e.Callee).Pkg == ex.Pkg }) {
+		sites = append(sites, an.CallsIn(fn, "mvdan.cc/sh/v3/expand.ListEnviron")...)
+	}
 	if len(sites) != 1 {
-		c.Und(rule2, an.Short(ex)+":ListEnviron", ex.Pos(), "expected one ListEnviron call in Execute, found %d", len(sites))
+		c.Und(rule2, an.Short(ex)+":ListEnviron", ex.Pos(), "expected one ListEnviron call under Execute, found %d", len(sites))
 		return
 	}
 	site := sites[0].(*ssa.Call)
 	arg := site.Call.Args[0]
-	// name-unique: the slice is the result of ConvertEnv(<one map>) and nothing else
+	// name-unique: the slice is the result of ConvertEnv(<one map>) and nothing else (helpers of pkg/executor are looked through)
 	var m ssa.Value
+	hf := ex // the function that builds the map
 	unique := true
 	why := ""
-	for _, src := range an.Sources(arg) {
+	for _, src := range p.DeepSources(arg, 3, site.Parent() != ex) {
 		call, ok := src.(*ssa.Call)
 		if !ok {
 			unique = false
@@ -297,7 +301,12 @@ func executeEnv(c *an.Ctx, rule1, rule2 string) {
 			continue
 		}
 		if _, ok := an.IsCallTo(call, "pkg/utils.ConvertEnv"); ok {
+			if m != nil {
+				unique = false
+				why = "more than one ConvertEnv result"
+			}
 			m = call.Call.Args[0]
+			hf = call.Parent()
 			continue
 		}
 		unique = false
@@ -320,7 +329,7 @@ func executeEnv(c *an.Ctx, rule1, rule2 string) {
 	}
 	// layers of the map
 	mm, ok := an.Resolve(m).(*ssa.MakeMap)
-	if !ok || mm.Parent() != ex {
+	if !ok || mm.Parent() != hf {
 		c.Bad(rule1, an.Short(ex)+":env-map", site.Pos(), "the environment map is not allocated by this Execute call (%s): entries of one job survive into the next, so a name one job defines stays defined for later jobs", an.Prov(m))
 		return
 	}
@@ -335,7 +344,7 @@ func executeEnv(c *an.Ctx, rule1, rule2 string) {
 			continue
 		}
 		var in *an.Loop
-		for _, l := range an.Loops(ex) {
+		for _, l := range an.Loops(hf) {
 			if l.Blocks[mu.Block()] && (in == nil || len(l.Blocks) < len(in.Blocks)) {
 				in = l
 			}
